@@ -206,7 +206,7 @@ HARNESSES.append(dual_harness(
 
 
 # ---------------------------------------------------------------- refit = fresh fit (history-carrying wrapped estimators)
-def _warm_classifier(npm):
+def _warm_classifier(npm, weightless=False):
     """a scikit-learn classifier whose fit ACCUMULATES what it has seen (warm_start-like): if a wrapper re-fits the
     object of an earlier fit instead of a fresh copy, the log has more than one entry"""
     from sklearn.base import BaseEstimator, ClassifierMixin
@@ -219,7 +219,18 @@ def _warm_classifier(npm):
 
         def predict_proba(self, X):
             raise NotImplementedError
-    return Warm()
+
+    class WarmWeightless(ClassifierMixin, BaseEstimator):
+        """an estimator whose fit takes no sample_weight (like KNeighborsClassifier or GaussianProcessClassifier)"""
+
+        def fit(self, X, y):
+            self.fit_log_ = list(getattr(self, "fit_log_", [])) + [(X, y, None)]
+            self.classes_ = npm.unique(y)
+            return self
+
+        def predict_proba(self, X):
+            raise NotImplementedError
+    return WarmWeightless() if weightless else Warm()
 
 
 def _warm_regressor(npm):
